@@ -237,8 +237,11 @@ def HeldBound (M : Nat) : Nat → List Nat → List Ev → Prop
   | del, _ :: ss, .wr _ :: t => HeldBound M del ss t
   | del, [], .wr _ :: t => HeldBound M del [] t
 
-/-- Start offsets of the documents: 0, then each earlier document's end. -/
-def docStarts (docs : List Doc) : List Nat := (0 :: stops docs).take docs.length
+/-- Start offsets of the documents: `prev` (the previous document's end; 0 for
+the first), then each earlier document's end. -/
+def startsFrom : Nat → List Doc → List Nat
+  | _, [] => []
+  | prev, d :: ds => prev :: startsFrom d.stop ds
 
 /-- Largest distance from a document's start to its end, `prev` being the
 previous document's end. -/
